@@ -6,10 +6,14 @@ CLAIMS = {
  'C01': ('proof', "Verus: run_a_star, backtrack::vertex_oriented_route and run_a_star_edge_oriented extracted verbatim every run; loop invariants TW/DOM/POT + no-revisit and contiguity lemmas for every graph, direction and model configuration; native witnesses (thorough) replay failures on the real drivers",
          "assumed: contracts of the search instance's callees (graph accessors, frontier/traversal models, priority_queue) as listed in evidence; termination of the loops not proved; the k-shortest-path drivers only through concrete witnesses; known finding C01-edge-oriented-destination-entry",
          "Verus loop invariants on verbatim-extracted driver code + lemmas", "3/C01 + AL"),
+ 'C02': ('other', "NOT optimality. Verus on the verbatim A* driver: relaxation step (a label is replaced only by a strictly smaller cost = near label + edge cost), re-queue with f = g + weighted estimate, invariant Q (queue priority never worse than the latest f: catches push_increase/push_decrease and flipped comparisons), advance_search hands out a least-f vertex; Kani: ReverseCost reverses the order of Cost; estimate >= 0",
+         "least total cost itself and admissibility of the great-circle heuristic are NOT decided; priority_queue crate semantics assumed; dispatch (Dijkstra = weight 0) and CostModelService::build (serde_json) not covered", "Verus loop invariant + in-function assertions on extracted code; Kani complete harness", "3/C02"),
  'C03': ('proof', "Kani: bearing_to_destination (function contract) and Turn::from_angle complete over all i16; Verus: StateModel get/set/add for distance, time, energy (slot += converted increment, frame) with the accumulation lemma, and the per-edge state/cost split of EdgeTraversal::forward/reverse_traversal",
          "summary serialisation through serde_json not under contract; headings assumed in 0..=360 as documented; format! stubbed", "Kani function contracts + Verus contracts on extracted code", "3/C03"),
  'C05': ('proof', "Verus: run_a_star + advance_search under contract; 'no path' only from an exhausted queue, where invariant EXP gives a labelled set closed under permitted edges that does not contain the target; Ok with a target => target in tree",
          "assumed callee contracts as in C01; optimality of labels not claimed; queue exhaustion time not bounded", "Verus loop invariant EXP + postconditions on the verbatim driver", "3/C05 + AL"),
+ 'C06': ('other', "NOT schedule independence. Verus: apply_load_balancing_policy returns exactly `parallelism` bins that partition the batch (every query in exactly one bin, input order kept), parallelism 0 => Err; cache transparency of PredictionModelRecord::predict (shared with C08); Kani: min_bin (<= 3 bins); native witness: batches 1..9 x parallelism 1..4 through the real CompassApp::run (thorough)",
+         "independence of the response multiset from the rayon schedule / chunking / batch order and isolation of failing queries are NOT decided (Kani has no threads, Verus no model of rayon)", "Verus loop invariant on extracted code + Kani bounded harness + native witness", "3/C06"),
  'C07': ('proof', "Kani function contracts on Cost::enforce_strictly_positive/non_negative over every f64; Verus (reals) on CostModel::{traversal_cost,access_cost,cost_estimate}, EdgeTraversal::{forward,reverse}_traversal, total_cost extracted verbatim: total is the floored weighted sum, > 0, access+traversal share == total",
          "A-REAL for the Verus part; cost_ops::calculate_* and VehicleCostRate::map_value are assumed contracts (closure pipelines rejected by Verus, CBMC time-outs)", "Kani proof_for_contract + Verus postconditions on extracted code", "3/C07"),
  'C09': ('proof', "Verus (reals): all six convert functions, From impls and create_time/speed/energy extracted verbatim, verified against spec tables generated from their own match arms; identity, linearity, 0.1% round trip, 0.1% physical factor, time=distance/speed within 0.31% as lemmas; Kani bit-precise on the real crate for rejection of non-positive inputs and (thorough) per-pair f64 round trips",
@@ -22,19 +26,21 @@ CLAIMS = {
          "A-REAL; inner/underlying models opaque; trait-object dispatch replaced by direct calls on shim structs; query parsing (serde_json) not under contract; turn restrictions decided for the pair stored at expansion time", "Verus postconditions + loop invariants on extracted code", "3/C04"),
  'C08': ('proof', "Verus (reals): vehicle_ops, PredictionModelRecord::predict (cache hit == miss through a call-site obligation on cache.update), get_phev_energy, BEV/PHEV::consume_energy, BEV::best_case_energy, Energy::create extracted verbatim; soc' = clamp(soc - 100*delta/capacity) in [0,100]; Kani bit-precise range of soc_from_battery_and_delta",
          "A-REAL for the Verus unit; StateModel accessors / prediction model / FloatCachePolicy / f64::clamp as assumed contracts; update_from_query (serde_json) and ICE not covered", "Verus postconditions on extracted code + Kani complete harness", "3/C08"),
+ 'C15': ('other', "in-memory half only: the per-row adjacency update of EdgeLoader::try_from (closure extracted by rule R5, Verus), Graph::{get_edge,get_vertex,src_vertex_id,dst_vertex_id,edge_triplet} (lookup by id = lookup by index; NotFound errors), the adjacency container at every size (C11 unit), allocation sizes of adj/rev (Kani R10)",
+         "file reading / parsing / decompression / line counting are NOT decided; that ids equal row positions is an assumption", "Verus on extracted code (incl. closure extraction) + Kani expression-level obligation", "3/C15"),
+ 'C17': ('other', "Verus: MultiSet::from/next for ANY number of axes and lengths: next() returns the tuple at the current position and moves to the mixed-radix successor, None after the last tuple; lemma: each step advances the denoted number by one and the last tuple denotes prod(len)-1 (hence exactly the Cartesian product, each tuple once); native sweep over shapes <= 3x3x3 (thorough)",
+         "iterator-adapter fragments of next/from are assumed helper contracts; GridSearchPlugin::process (serde_json) mapping from tuples to queries and json_array_flatten are NOT decided", "Verus loop invariant + induction lemmas on extracted code", "3/C17"),
+ 'C18': ('other', "Verus on the four verbatim functions of scc.rs for every graph: each DFS call extends the stack by exactly the newly visited vertices and leaves all their successors visited; all_strongly_connected_componenets returns a PARTITION of the vertex ids; largest returns one of the components and none is longer",
+         "mutual reachability / maximality of the classes (finishing-order argument) and termination are NOT decided; Graph accessors assumed", "Verus recursion + loop invariants on extracted code", "3/C18"),
  'C14': ('proof', "Verus: find_nearest_index (unbounded loop incl. termination), Interp1D/2D/3D::linear and Interpolator::validate_inputs extracted verbatim: bracketing cell, multilinear form, min/max of the corners, exactness at grid points (1-D), continuity lemma, out-of-grid rejection",
          "A-REAL; InterpND, InterpolationSpeedGradeModel and the agreement with the smartcore model are not covered; axes with >= 2 strictly increasing points", "Verus loop invariants + nonlinear lemmas on extracted code", "3/C14"),
+ 'C12': ('other', "kernels only: MultiSet::from/next (Verus, any number of axes: mixed-radix successor, stops after the last tuple), expression-level Kani obligations for the per-axis `len - 1` and for the chunk size handed to rayon's par_chunks (never 0), TerminationModel panic freedom (C10 harnesses), native witnesses (empty batch through CompassApp::run, degenerate grids)",
+         "whole-application panic freedom and boundedness (plugins over serde_json, rayon workers, files) are NOT decided; rayon par_chunks(0) panic assumed as documented", "Verus on extracted code + Kani expression-level obligations (rule R10) + native witnesses", "3/C12"),
  'C13': ('other', "decision kernels only: RouteSimilarityFunction::is_similar (Kani function contract, complete), KspTerminationCriteria::terminate_search (complete over usize with stated product bound), Yen spur-range expression obligation (R10); the drivers themselves are not under contract",
          "the k-shortest-path drivers' validity/distinctness/count/termination are NOT decided; known finding C13-yen-one-edge-underflow", "Kani function contracts on decision kernels + expression-level obligations", "3/C13"),
 }
 NA = {
- 'C02': "not built yet in this session (planned: relaxation-step invariant Q on AL; optimality itself is out of reach)",
- 'C06': "schedule independence under rayon is outside both back ends (Kani has no threads; Verus has no model of rayon); kernels not built yet",
- 'C12': "whole-application panic freedom is outside both back ends; kernels not built yet",
- 'C15': "file parsing (csv/serde/flate2) is outside both back ends; in-memory half not built yet",
  'C16': "nearest-neighbour search is rstar's and the tolerance is a haversine (transcendental) distance: no contract within reach expresses agreement with an exhaustive scan",
- 'C17': "not built yet in this session (MultiSet iterator: closures rejected by Verus, CBMC memory blow-up measured)",
- 'C18': "not built yet in this session (planned: scc.rs in Verus: partition + one reachability direction)",
  'C19': "record integrity under concurrent writers (Arc<Mutex<File>>) and file contents: Kani has no threads/files, Verus would have to assume the property",
  'C20': "agreement between WKT/WKB/GeoJSON/JSON encoders is a property of third-party encoder crates; no contract within reach",
 }
@@ -53,7 +59,7 @@ def main():
          "engines": [{"name": "check", "path": "/verif/check", "serves_properties": claimed,
                       "kind_free_text": "contract-based deductive verification: Verus on functions extracted verbatim from /repo every run (logged rewrite rules) + Kani function contracts / complete harnesses overlaid on the real crates; native witnesses replay failures outside the verifier"}],
          "checks": checks,
-         "notes": "exit 0 = all obligations discharged (KNOWN-FINDING lines for listed findings); exit 1 = VIOLATION; exit 2 = undecided (lost anchor, unsupported construct, resource limit), never an alarm. /repo carries fix: commits only (bc55958, eede489, 78ef5fe, 43a7634); see known_findings.json.",
+         "notes": "exit 0 = all obligations discharged (KNOWN-FINDING lines for listed findings); exit 1 = VIOLATION; exit 2 = undecided (lost anchor, unsupported construct, resource limit), never an alarm. /repo carries fix: commits only (bc55958, eede489, 78ef5fe, 43a7634, cfef63b, 12bf6bd, 093e561); see known_findings.json.",
          "not_applicable": [{"property_id": p, "reason": r} for p, r in sorted(NA.items()) if p not in claimed]}
     json.dump(m, open(os.path.join(V, 'MANIFEST.json'), 'w'), indent=1)
     print('claimed', claimed)
